@@ -56,6 +56,12 @@ Definition bounds_sx (x : sx) : option (list (Z * Z)) :=
   | _ => None
   end.
 
+Fixpoint decl_first (ds : decls) (v : str) : option ty :=
+  match ds with
+  | [] => None
+  | (n, t) :: r => if str_eqb v n then Some t else decl_first r v
+  end.
+
 Definition layout_entry (x : sx) : sx :=
   match x with
   | SL [SZ 1; e; t] =>
@@ -112,6 +118,64 @@ Definition layout_entry (x : sx) : sx :=
     | Some env, Some ps', Some ls' =>
       SL [SL (map (fun d => sx_optz (local_var_idx env ps' ls' (fst d))) (ps' ++ ls'));
           sx_optz (params_size env ps'); sx_optz (local_vars_size env ls')]
+    | _, _, _ => sx_bad
+    end
+  (* whole-compilation report (one job per program):
+     (10 env shared ((rname params locals statics) ...) ((rname var path) ...) ((rname var) ...) (gname ...)) *)
+  | SL [SZ 10; e; sh; SL rs; SL qs; SL vqs; SL gqs] =>
+    match env_sx e, decls_sx sh,
+          map_opt (fun r => match r with
+                            | SL [n; ps; ls; st] =>
+                              match get_str n, decls_sx ps, decls_sx ls, decls_sx st with
+                              | Some n', Some ps', Some ls', Some st' => Some (n', (ps', ls', st'))
+                              | _, _, _, _ => None
+                              end
+                            | _ => None
+                            end) rs with
+    | Some env, Some sh', Some rs' =>
+      let globs := globals_of sh' (map (fun r => (fst r, snd (snd r))) rs') in
+      let find_r (n : str) :=
+        find (fun r => str_eqb n (fst r)) rs' in
+      SL [SL (map (fun r => let '(n, (ps, ls, st)) := r in
+                            SL [SL (map (fun d => sx_optz (local_var_idx env ps ls (fst d))) (ps ++ ls));
+                                sx_optz (params_size env ps); sx_optz (local_vars_size env ls);
+                                SZ (params_size_fixed ps)]) rs');
+          SL (map (fun d => sx_str (fst d)) globs);
+          SL (map (fun d => SL [sx_optz (global_var_idx env globs (fst d));
+                                sx_optz (type_size env (snd d))]) globs);
+          sx_optz (sizes_sum env globs);
+          SL (map (fun q => match q with
+                            | SL [rn; vn; SL path] =>
+                              match get_str rn, get_str vn, map_opt get_str path with
+                              | Some rn', Some vn', Some p =>
+                                match find_r rn' with
+                                | Some (_, (ps, ls, st)) =>
+                                  match decl_first (ps ++ ls ++ st ++ sh') vn' with
+                                  | Some t => sx_optz (dotted_index env t p)
+                                  | None => sx_bad
+                                  end
+                                | None => sx_bad
+                                end
+                              | _, _, _ => sx_bad
+                              end
+                            | _ => sx_bad
+                            end) qs);
+          SL (map (fun q => match q with
+                            | SL [rn; vn] =>
+                              match get_str rn, get_str vn with
+                              | Some rn', Some vn' =>
+                                match find_r rn' with
+                                | Some (_, (ps, ls, _)) => sx_optz (local_var_idx env ps ls vn')
+                                | None => sx_bad
+                                end
+                              | _, _ => sx_bad
+                              end
+                            | _ => sx_bad
+                            end) vqs);
+          SL (map (fun q => match get_str q with
+                            | Some g => sx_optz (global_var_idx env globs g)
+                            | None => sx_bad
+                            end) gqs)]
     | _, _, _ => sx_bad
     end
   | _ => sx_bad
